@@ -49,7 +49,8 @@ def odd_structure(rng, root, L, mp):
     d = os.path.join(root, os.path.dirname(mp))
     kind = rng.choice(['hidden_dir_entry', 'ignored_manifest', 'hidden_manifest', 'data_and_manifest',
                        'corrupt_compressed', 'corrupt_compressed', 'now_ignored', 'files_file', 'odd_manifest_path',
-                       'self_reference', 'self_listing_sub', 'dup_lines_missing', 'sysfs_link', 'binary_manifest', 'manifest_ring'])
+                       'self_reference', 'self_listing_sub', 'dup_lines_missing', 'sysfs_link', 'binary_manifest', 'manifest_ring',
+                       'ignore_and_entry', 'ignore_and_entry'])
     subm = b'DATA f 1 SHA1 ' + _sha1(b'x').encode() + b'\n'
 
     def put(rel, data):
@@ -118,6 +119,16 @@ def odd_structure(rng, root, L, mp):
                 put('sl/deep/Manifest', b'')
                 put('sl/deep/f', b'x')
             return []
+        if kind == 'ignore_and_entry':
+            # one path both IGNOREd and listed with checksums - IGNORE first or last, in one Manifest or with
+            # the IGNORE in a deeper one: an incompatibility to be diagnosed
+            put('ie/f', b'x')
+            ent = rng.choice(['DATA ie/f 1 SHA1 ' + _sha1(b'x'), 'MISC ie/f 1', 'MANIFEST ie/f 1 SHA1 ' + _sha1(b'x')])
+            how = rng.choice(['first', 'last', 'deeper'])
+            if how == 'deeper' and put('ie/Manifest', b'IGNORE f\n'):
+                m_ = b'IGNORE f\n'
+                return ['MANIFEST ie/Manifest %d SHA1 %s' % (len(m_), _sha1(m_)), ent]
+            return ['IGNORE ie/f', ent] if how != 'last' else [ent, 'IGNORE ie/f']
         if kind == 'dup_lines_missing':
             # identical duplicate lines for a file that is gone, which an outer Manifest lists as well
             if put('dl/Manifest', b'DATA a 1 SHA1 00\nDATA a 1 SHA1 00\n'):
